@@ -25,6 +25,8 @@ open CuqiVerif.C20 (BC)
     gammadim <len shape> <len rate> <geometry dim | ->   -> "dim <prior.dim> drawn <variates per step | x>" | "TypeError" | "ValueError"
     validateg <exp|leg|approx|approxleg> <len shape> <len rate> <geometry dim | -> <isPosterior> <lik> <presetNonneg> <locSumZero> <var>*
         -> verdict with the prior's dimension computed by the model (`withGammaPrior`) | "unbuildable"
+    gausswb <cov|prec> <n> <dense|sparse> <matrix at 1> <Ax> <b> <alpha> <beta>   -> like `gaussw`: the full-matrix branch for dim > MIN_DIM_SPARSE
+           (eigen-decomposition) and scipy-sparse valued callables (`bigQuad`: certificate-checked L D L^T / solve); indefinite -> err:notPD
     gaussw <reg 0|1> <cov|prec> <n> <s|v|m> <value of the callable at 1: rational | vector | matrix> <Ax vec> <b vec> <alpha> <beta>
         -> like `gauss`, or "err:<shape|asym|singular|notPD|zeroDiv>"  (vector / diagonal entries must be > 0, full matrices n <= 75:
            anything else is outside the modelled range and answered "bad-op")
@@ -103,6 +105,16 @@ def step : List String → String
         | .error e => fmtPErr e
         | .ok U => fmtOutcome (outcome reg (gaussQuadU n U ax b) b al be)
     | _, _, _, _, _, _, _, _ => "bad-op"
+  | ["gausswb", w, n, kind, val, ax, b, al, be] =>
+    match parseWiring w, n.toNat?, parseMat val, parseVec ax, parseVec b, parseRat al, parseRat be with
+    | some w, some n, some M, some ax, some b, some al, some be =>
+      if kind ≠ "dense" ∧ kind ≠ "sparse" then "bad-op"
+      else if blen ax.length b.length ≠ some n then "err:shape"
+      else match bigQuad w n (kind = "sparse") M (devA ax b) with
+        | .error e => fmtPErr e
+        | .ok none => "bad-op"
+        | .ok (some q) => fmtOutcome (outcome false ⟨q, q, n⟩ b al be)
+    | _, _, _, _, _, _, _ => "bad-op"
   | ["gmrf", reg, o, bc, pd, n, f1, mean, b, al, be] =>
     match parseBool reg, o.toNat?, BC.ofString bc, pd.toNat?, n.toNat?, parseVec f1, parseVec mean, parseVec b,
           parseRat al, parseRat be with
